@@ -29,6 +29,9 @@ CHECKS = {
          'For every asset class (incl. Plant/CHP, coarse, scaled, order book) placed before/after the horizon, orders before/between/after live orders and take periods in 7 placements: with and without the element the problems have the same feasible set up to inert variables, the same value and the same reported dispatch, for all parameter values and prices; one open known finding (KF-C08-scaledwin).'),
  'C20': ('Q3 two-way embeddings against an independent one-variable-per-order reference; Q1 for reported delivery, fractions and special rows over all feasible x', '6 C20',
          'Order lists with overlapping, nested, partly and wholly outside orders (before/between/after), full execution, discounting and companions: optimum equals the reference for all prices/parameters; reported delivery = sum fraction*capacity*dt and special rows are exact for all feasible points.'),
+
+ 'C13': ('Q3 two-way embeddings (explicit linear maps) between the option problem and the real fine problem plus the defining equalities; Q1 constant reported rate', '6 C13',
+         'For contracts (one/two variables), transports, storages, multi-commodity and take contracts with a coarser frequency (aligned, unaligned and horizon-straddling windows) or a periodicity (with/without duration): optimum and feasible set equal those of the fine problem with the equalities added, for all parameter values and prices (wacc = 0); reported rates are constant per coarse interval / identical across periods. One open known finding (periodic Plant).'),
 }
 NA = {}
 props = [json.loads(l) for l in open(os.path.join(ROOT, 'properties.jsonl'))]
